@@ -44,7 +44,7 @@ func render(v ssa.Value, depth int) string {
 	if v == nil {
 		return "<nil>"
 	}
-	if depth > 12 {
+	if depth > 60 {
 		return "…"
 	}
 	if curResolver != nil {
